@@ -305,3 +305,95 @@ func H_C05_window_distinct() {
 	verif.Assert(verif.Eq(got, want), "window")
 	verif.Reach("end")
 }
+
+// H_C05_order_alias: ORDER BY names output columns: a renamed column, a
+// computed alias, and an alias that shadows a different source column.
+func H_C05_order_alias() {
+	n := verif.Choose("rows", maxRows(3, 4)+1)
+	form := verif.Choose("form", 4)
+	d := verif.Choose("dir", 3)
+	doc, rows := numTable(n, "a", "b")
+	for i, r := range rows {
+		r["id"] = float64(i)
+	}
+	var sql string
+	key := func(r Map) float64 { return f64of(r["a"]) }
+	switch form {
+	case 0:
+		sql = "SELECT id, a AS k FROM t ORDER BY k" + dirs[d]
+	case 1:
+		sql = "SELECT id, a + b AS k FROM t ORDER BY k" + dirs[d]
+		key = func(r Map) float64 { return f64of(r["a"]) + f64of(r["b"]) }
+	case 2:
+		// the output column a holds the source column b
+		sql = "SELECT id, b AS a FROM t ORDER BY a" + dirs[d]
+		key = func(r Map) float64 { return f64of(r["b"]) }
+	case 3:
+		sql = "SELECT id, a AS k FROM t ORDER BY k" + dirs[d] + " LIMIT 2 OFFSET 1"
+	}
+	if form == 1 {
+		for _, r := range rows {
+			s := key(r)
+			verif.Assume(s == s) // inf + -inf
+		}
+	}
+	got, ok := runQuery(doc, sql)
+	if !ok {
+		return
+	}
+	// reference: the ids in the order a stable sort by the key gives; ties
+	// may come in any order, so compare the key sequence and the id set
+	type kv struct {
+		id int
+		k  float64
+	}
+	var ref []kv
+	for i, r := range rows {
+		ref = append(ref, kv{i, key(r)})
+	}
+	for i := 1; i < len(ref); i++ {
+		for j := i; j > 0 && lessNum(ref[j].k, ref[j-1].k, d); j-- {
+			ref[j], ref[j-1] = ref[j-1], ref[j]
+		}
+	}
+	lo, hi := 0, len(ref)
+	if form == 3 {
+		lo, hi = 1, 3
+		if lo > len(ref) {
+			lo = len(ref)
+		}
+		if hi > len(ref) {
+			hi = len(ref)
+		}
+	}
+	verif.Assert(len(got) == hi-lo, "count")
+	if len(got) != hi-lo {
+		return
+	}
+	okKeys, okRows := true, true
+	for i, g := range got {
+		m, isMap := g.(Map)
+		if !isMap {
+			okRows = false
+			break
+		}
+		id, isNum := m["id"].(float64)
+		if !isNum || id < 0 || int(id) >= n {
+			okRows = false
+			break
+		}
+		col := "k"
+		if form == 2 {
+			col = "a"
+		}
+		if !verif.Eq(g, Map{"id": id, col: key(rows[int(id)])}) {
+			okRows = false
+		}
+		if key(rows[int(id)]) != ref[lo+i].k {
+			okKeys = false
+		}
+	}
+	verif.Assert(okRows, "rows-are-projections-of-source-rows")
+	verif.Assert(okKeys, "key-sequence-sorted")
+	verif.Reach("end")
+}
